@@ -662,7 +662,7 @@ def _human_tabulate(ctx, m, fn):
                                         used.add((key, "value"))
                                     return Tpl(format=fmt)
                                 loc = S(get=get, plural=lambda c: "<plural>", _eqkey="loc")
-                                selfo = minieval.Obj(_methods=meths, _props=set(), _ctor=None, _natives={}, _locale=loc)
+                                selfo = minieval.Obj(_methods=meths, _props=set(), _ctor=None, _natives={}, **{**minieval.class_level(m, "DifferenceFormatter"), "_locale": loc})
                                 glob = {"Locale": minieval.Stub(load=lambda x: x), "t": S(cast=lambda ty, v: v), "str": str}
                                 n += 1
                                 got = minieval.call(fn, [selfo, S(**d), is_now, absolute, loc], {}, {**funcs, "$globals": glob})
@@ -713,7 +713,7 @@ def _inwords_tabulate(ctx) -> None:
                         return S(translation=lambda key: S(format=lambda x, _k=key: f"[{_k}]({x})"), plural=lambda cnt: f"<plural({cnt})>", _eqkey=name)
                     pend = S(get_locale=lambda: "DEFAULT", locale=mkloc)
                     glob = {"pendulum": pend, "Locale": S(load=mkloc), "abs": abs}
-                    o = minieval.Obj(_methods=meths, _props=set(), _ctor=None, _natives={}, _super=(dmeths, {**dfuncs, "$globals": glob}), **c)
+                    o = minieval.Obj(_methods=meths, _props=set(), _ctor=None, _natives={}, _super=(dmeths, {**dfuncs, "$globals": glob}), **{**minieval.class_level(mod_, cls), **c})
                     funcs = {st.name: st for st in mod_.top() if isinstance(st, ast.FunctionDef)}
                     n += 1
                     got = minieval.call(meths["in_words"], [o] + ([given] if given else []), ({"separator": sep} if given else {}), {**funcs, "$globals": glob})
